@@ -40,6 +40,16 @@ def g3(a: int, b: bool, c: int) -> int:
     return a - c
 
 @guppy
+def bump(a: array[int, 2], v: int) -> None:
+    result("bump", v)
+    a[0] += v
+
+@guppy
+def bump3(u: int, a: array[int, 2], v: int) -> None:
+    result("bump3", u * 100 + v)
+    a[1] += u - v
+
+@guppy
 def boom(k: int) -> int:
     result("e", k)
     panic("boom")
@@ -96,15 +106,9 @@ class G:
             return ("lit", self.d(st.integers(*(small or (-3, 5)))))
         if small is not None:
             lo, hi = small
-            r = self.d(st.integers(0, 5))
+            r = self.d(st.integers(0, 8))
             v = self.d(st.integers(lo, hi))
-            if r <= 2 or depth >= self.max_depth or (nl and r >= 4):
-                self.leaves += 1
-                return ("ti", self.nk(), v)
-            if r == 3:
-                return ("lit", v)
-            c = self.bool_tree(depth + 1)
-            return ("ifexp", c, self.int_tree(depth + 1, small), self.int_tree(depth + 1, small))
+            return self.exact_tree(v, r, depth, nl, small)
         if depth >= self.max_depth or self.leaves >= self.max_leaves:
             if self.d(st.integers(0, 3)) == 0:
                 return ("lit", self.d(st.integers(-3, 5)))
@@ -146,6 +150,34 @@ class G:
             return ("boom", self.nk())
         self.leaves += 1
         return ("ti", self.nk(), self.d(st.integers(-3, 5)))
+
+    def exact_leaf(self, v):
+        if self.d(st.integers(0, 2)) == 0:
+            return ("lit", v)
+        self.leaves += 1
+        return ("ti", self.nk(), v)
+
+    def exact_tree(self, v, r, depth, nl, small):
+        """an int tree whose value is exactly v (index expressions): leaf, literal, arithmetic
+        mixing literals and effectful leaves (a + b, a - b with a + b == v / a - b == v), or a
+        conditional over in-range alternatives"""
+        if r <= 2 or depth >= self.max_depth:
+            self.leaves += 1
+            return ("ti", self.nk(), v)
+        if r == 3:
+            return ("lit", v)
+        if r in (4, 5):
+            a = self.d(st.integers(0, 3))
+            left, right = self.exact_leaf(a), self.exact_leaf(v - a)
+            return ("bin", "+", left, right)
+        if r == 6:
+            b = self.d(st.integers(0, 3))
+            return ("bin", "-", self.exact_leaf(v + b), self.exact_leaf(b))
+        if nl:
+            self.leaves += 1
+            return ("ti", self.nk(), v)
+        c = self.bool_tree(depth + 1)
+        return ("ifexp", c, self.int_tree(depth + 1, small), self.int_tree(depth + 1, small))
 
     def bool_tree(self, depth=0, nl=False):
         if depth >= self.max_depth or self.leaves >= self.max_leaves:
@@ -343,7 +375,7 @@ def seq_issues(trees):
 def _one(draw, allow_known=False, max_depth=4, prefix="", allow_boom=True):
     """-> dict(body=<helper fdefs + main function named {prefix}main>, labels, nontrivial, excluded)"""
     g = G(draw, max_depth=max_depth, allow_known=allow_known, allow_boom=allow_boom)
-    lines = ["xs = array(10, 20, 30)"]
+    lines = ["xs = array(10, 20, 30)", "xss = array(array(1, 2), array(3, 4))"]
     labels = set()
     n_stmts = draw(st.integers(1, 4))
     max_leafcount = 0
@@ -352,8 +384,8 @@ def _one(draw, allow_known=False, max_depth=4, prefix="", allow_boom=True):
     fdefs = []
     for si in range(n_stmts):
         g.leaves = 0
-        kind = draw(st.sampled_from(["assign", "if", "while", "return", "args", "aug", "setitem", "augitem",
-                                     "result", "tuple", "assign"]))
+        kind = draw(st.sampled_from(["assign", "if", "while", "return", "args", "aug", "setitem", "augitem", "augitem",
+                                     "augitem2", "borrowarg", "result", "tuple", "assign"]))
         labels.add("stmt:" + kind)
         for _attempt in range(6):
             saved = (g.k, g.boomed, g.wcount)
@@ -392,10 +424,27 @@ def _one(draw, allow_known=False, max_depth=4, prefix="", allow_boom=True):
                 # Python evaluates the value first, then the index
                 iss = seq_issues([ts[1], ts[0]])
             elif kind == "augitem":
-                # index kept free of lifted nodes: `xs[a if c else b] += e` crashes the checker
-                # (InternalGuppyError "BB contains IfExp") - a C02 finding, not this property
-                ts = g.seq([lambda n: g.int_tree(g.max_depth, small=(0, 2)), lambda n: g.int_tree(1, nl=n)], False)
-                st_lines = [f"xs[{render(ts[0])}] += {render(ts[1])}", 'result("xs", xs)']
+                # container and index are evaluated (into a temporary) before the value is built, so an
+                # effectful index followed by a lifted value is NOT in the known reordering class
+                ts = [g.int_tree(1, small=(0, 2)), g.int_tree(1)]
+                st_lines = [f"xs[{render(ts[0])}] {draw(st.sampled_from(['+=', '-=', '*=']))} {render(ts[1])}", 'result("xs", xs)']
+                iss = issues(ts[0]) | issues(ts[1])
+            elif kind == "augitem2":
+                # nested subscript target: both indices once, in order, before the value
+                ts = [g.int_tree(2, small=(0, 1)), g.int_tree(2, small=(0, 1)), g.int_tree(1)]
+                st_lines = [f"xss[{render(ts[0])}][{render(ts[1])}] += {render(ts[2])}", 'result("xss0", xss[0])', 'result("xss1", xss[1])']
+                iss = issues(ts[0]) | issues(ts[1]) | issues(ts[2])
+            elif kind == "borrowarg":
+                # a borrowed subscript place as argument (its index is evaluated in argument order)
+                # followed / preceded by other effectful arguments
+                form = draw(st.integers(0, 1))
+                if form == 0:
+                    ts = g.seq([lambda n: g.int_tree(2, small=(0, 1), nl=True), lambda n: g.int_tree(1, nl=n)], False)
+                    st_lines = [f"bump(xss[{render(ts[0])}], {render(ts[1])})"]
+                else:
+                    ts = g.seq([lambda n: g.int_tree(1, nl=n), lambda n: g.int_tree(2, small=(0, 1), nl=True), lambda n: g.int_tree(1, nl=n)], False)
+                    st_lines = [f"bump3({render(ts[0])}, xss[{render(ts[1])}], {render(ts[2])})"]
+                st_lines += ['result("xss0", xss[0])', 'result("xss1", xss[1])']
                 iss = seq_issues(ts)
             elif kind == "result":
                 ts = [g.int_tree()]
